@@ -269,6 +269,20 @@ def trace_validate(ctx, mod, constants, traces, label="trace", extra_defs="", cl
     """traces: list of lists of events {o, ret, st} (JSON).  TLC validates the batch; returns
     the list of (trace index, position) rejections."""
     name = "%s_%s" % (mod, label)
+    # an adapter projection that raised (its own cross-checks failed) is reported directly
+    cleaned = []
+    for tr in traces:
+        cut = None
+        for i, e in enumerate(tr):
+            if isinstance(e["st"], dict) and "projection-raised" in e["st"]:
+                cut = i
+                break
+        if cut is not None:
+            ctx.violation("projection-check-failed", {"module": mod, "event": jsonable(tr[cut]),
+                                                      "ops_so_far": jsonable([e["o"] for e in tr[:cut + 1]])})
+            tr = tr[:cut]
+        cleaned.append(tr)
+    traces = cleaned
     d = ctx.sub("tlc_" + name)
     tf = os.path.join(d, "traces.json")
     with open(tf, "w") as f:
